@@ -618,5 +618,83 @@ impl Builder {
 //@                all_mult8(push_upto(self.s21(), self.custs(), it.index@ as int)),
 //@end
 }
+
+// ---------------------------------------------------------------------------
+// C06, mechanised composition (glue code written here; it CALLS the verified build(), load(),
+// tags() and -- through walk_collect -- TagIter::next, so only their contracts are used):
+// for every builder state whose supplied tags are tags (item_ok), the built structure LOADS,
+// and the tag walk of the loaded structure visits exactly the supplied tag images, in the
+// documented order, each byte-identical at its offset, followed by the end tag as the last 8
+// bytes; the walk ends exactly at the end of the structure.
+// ---------------------------------------------------------------------------
+pub fn build_load_walk(b: Builder) -> (res: (Ghost<Seq<int>>, Ghost<Seq<u8>>, Ghost<Seq<u8>>))
+    requires
+        panics_allowed(),
+        8 + flat(b.slots()).len() + 8 <= u32::MAX,
+        all_items_ok::<TagHeader>(b.slots()),
+    ensures ({
+        let offs = res.0@;        // offsets (relative to the first tag) the real iterator visited
+        let payload = res.1@;     // bytes of the loaded structure after its 8-byte header
+        let end_bytes = res.2@;
+        let items = b.slots().push(end_bytes);
+        &&& end_bytes.len() == 8 && decode::<TagHeader>(end_bytes).typ.0 == 0 && decode::<TagHeader>(end_bytes).size == 8
+        &&& payload == flat(items)
+        // exactly one visit per supplied tag, in order, plus the end tag
+        &&& offs == item_offs(items, 0)
+        &&& offs.len() == b.slots().len() + 1
+        // each supplied tag is found byte-identical at the offset the walk visits
+        &&& forall|k: int| 0 <= k < items.len() ==>
+                payload.subrange(flat(items.take(k)).len() as int, (flat(items.take(k)).len() + (#[trigger] items[k]).len()) as int) == items[k]
+    }),
+{
+    let ghost slots = b.slots();
+    let boxed = b.build();
+    let ghost end_bytes: Seq<u8> = choose|e: Seq<u8>| e.len() == 8
+        && #[trigger] decode::<TagHeader>(e).typ.0 == 0 && decode::<TagHeader>(e).size == 8
+        && obj_bytes(&*boxed).subrange(8, 8 + flat(slots).len() as int + 8) == flat(slots).add(e);
+    let ghost items = slots.push(end_bytes);
+    let ghost total = 8 + flat(slots).len() as int + 8;
+    let ptr = (&*boxed).as_ptr();
+    proof {
+        lemma_mb2_layouts();
+        assert(val_size(&*boxed) as int == total);
+        assert(hdr_at_cptr(ptr) == dyn_hdr(&*boxed));
+        // the last 8 bytes are the end tag
+        assert(mem_at(ptr@.provenance, ptr@.addr as int + total - 8, 8) =~= obj_bytes(&*boxed).subrange(8, total).subrange(flat(slots).len() as int, flat(slots).len() as int + 8));
+        assert(flat(slots).add(end_bytes).subrange(flat(slots).len() as int, flat(slots).len() as int + 8) =~= end_bytes);
+        assert(spec_end_tag_ok(ptr@.provenance, ptr@.addr as int, total));
+        assert(total % 8 == 0) by { lemma_round8_props(8 + ref_meta(&*boxed) as int); }
+    }
+    let r = unsafe { BootInformation::load(ptr) };
+    match r {
+        Err(_e) => {
+            // unreachable: the contract of load() accepts the built structure
+            proof { assert(false); }
+            (Ghost(Seq::empty()), Ghost(Seq::empty()), Ghost(end_bytes))
+        }
+        Ok(bi) => {
+            let mut it = bi.tags();
+            let ghost it0 = it;
+            proof {
+                assert(it0.buffer@ =~= obj_bytes(&*boxed).subrange(8, total));
+                assert(flat(items) == flat(slots).add(end_bytes));
+                assert(it0.buffer@ == flat(items));
+                assert(item_ok::<TagHeader>(end_bytes)) by {
+                    assert(end_bytes.subrange(0, 8) =~= end_bytes);
+                }
+                assert(all_items_ok::<TagHeader>(items));
+                lemma_walk_items::<TagHeader>(it0, items, 0);
+                lemma_flat_take_all(items);
+                lemma_item_offs_len(items, 0);
+                assert forall|k: int| 0 <= k < items.len() implies
+                    it0.buffer@.subrange(flat(items.take(k)).len() as int, (flat(items.take(k)).len() + (#[trigger] items[k]).len()) as int) == items[k] by {
+                    lemma_flat_item_at(items, k);
+                }
+            }
+            let offs = walk_collect(&mut it);
+            (offs, Ghost(it0.buffer@), Ghost(end_bytes))
+        }
+    }
+}
 } // mod mb
 } // verus!
